@@ -1,7 +1,6 @@
 use crate::{
     Positioned,
     parser::types::Field,
-    registry,
     validation::{
         suggestion::make_suggestion,
         visitor::{Visitor, VisitorContext},
@@ -14,10 +13,7 @@ pub struct FieldsOnCorrectType;
 impl<'a> Visitor<'a> for FieldsOnCorrectType {
     fn enter_field(&mut self, ctx: &mut VisitorContext<'a>, field: &'a Positioned<Field>) {
         if let Some(parent_type) = ctx.parent_type() {
-            if let Some(registry::MetaType::Union { .. })
-            | Some(registry::MetaType::Interface { .. }) = ctx.parent_type()
-                && field.node.name.node == "__typename"
-            {
+            if field.node.name.node == "__typename" && parent_type.is_composite() {
                 return;
             }
 
